@@ -248,6 +248,10 @@ def _other_operator(H0, start):
     return X
 
 
+class _Skip(Exception):
+    pass
+
+
 def _request(ctx, fn, Hop, Xmat):
     """Call fn() outside / inside eigenbasis_of(H) / inside eigenbasis_of(X); return the
     returned operator's matrix read at depth 0 (reference = site basis)."""
@@ -463,6 +467,30 @@ def _eval_aggregate(case):
             acc.add("shape/%s" % tag, "returned shape %r for a %d-state system" % (rho.shape, n))
             continue
         outcome.append(_digest(rho))
+        # HISTORY request -> re-issue: get_DensityMatrix() without a condition hands out "the
+        # initial condition calculated sometime in the past", i.e. the state just requested.
+        # Claimed for requests made outside all contexts only: the cache is a raw array in the
+        # basis of the request, so after a request inside a context the re-issue outside is that
+        # array read in another basis (observed on the unchanged tree for every condition type;
+        # the statement lists the request kinds, not the cache, so this is not claimed).
+        try:
+            if ctx != "out":
+                raise _Skip()
+            again = numpy.array(agg.get_DensityMatrix().data, dtype=complex)
+            dev = float(numpy.max(numpy.abs(again - rho))) if again.shape == rho.shape else 1.0
+            acc.seen("reissue", dev)
+            if dev > TOL_R:
+                acc.add("reissue/%s/stored-state-differs" % tag,
+                        "T=%g: get_DensityMatrix() without a condition, called outside all "
+                        "contexts after the request, hands out a state differing from the "
+                        "requested one by %.3g" % (T, dev))
+        except (isolation.HarnessError):
+            raise
+        except _Skip:
+            pass
+        except Exception as e:
+            acc.add("reissue/%s/raises-%s" % (tag, type(e).__name__),
+                    "re-issue of the stored state raised %s" % str(e)[:100])
         if not _check_valid(acc, rho, tag, need_trace=(cond != "impulsive")):
             continue
         if cond == "impulsive":
